@@ -169,6 +169,9 @@ def judge(ctx, stream, cases):
 
 
 def run(ctx: Ctx):
+    from ..rules_common import interpreter_modes
+
+    interpreter_modes(ctx, "diagrams")
     run_witnesses(ctx)
     quick = ctx.quick()
     for name, pool in (("diagram rules: plain names", gen.PLAIN), ("diagram rules: prefix-sibling names", ["a", "ab", "a_b", "aa", "b", "ba", "a1", "abc"])):
